@@ -129,6 +129,17 @@ pub const T7_TEMPLATES: &[(&str, &str)] = &[
     ("\"&v.", "\"t"),
     ("\"&v.", "\"b"),
     ("x='", "'dt + 1;"),
+    // something directly after the suffix of a string *expression* (the closing quote and suffix
+    // are one token there; what follows must not become part of it)
+    ("\"&v.", "\"dt)"),
+    ("\"&v.", "\"DT,x"),
+    ("\"&v.", "\"d;"),
+    ("\"&v.", "\"x)"),
+    ("\"&v.", "\"n=1"),
+    ("\"&v.", "\"t "),
+    ("\"&v.", "\"b\n"),
+    ("%m(a=\"&v.", "\"dt)"),
+    ("%let a=%sysfunc(f(\"&v", "\"dt));"),
 ];
 
 pub const T7_FILLERS: &[&str] = &[
